@@ -512,3 +512,19 @@ _ADDED6 = {
 }
 for _pid, _txt in _ADDED6.items():
     PROPS[_pid]["rule"] = PROPS[_pid]["rule"] + _txt
+_ADDED7 = {
+    "C04": " ClientFeedback: feedback attached by the reference client to a matching result fails the case whatever the server is.",
+    "C09": " Truncation errors must not also match io.EOF; ClientStdin: the reference client's exported Run on truncated input (binary / JSON, live or cancelled context).",
+    "C11": " InProcess: reference server that writes to stderr before answering the start request.",
+    "C12": " BlackBox: request trailers (flagged), also against traced servers.",
+    "C13": " RawE2E family connect-unary-error (absent / explicit identity / real Content-Encoding).",
+    "C14": " H2Bodies: the final partial event of a cut body is mandatory however the stream ends; media types in any letter case.",
+    "C15": " Header blocks that repeat a field name; response content type independent of the request's; RST_STREAM with any code.",
+    "C16": " Op await-dead: waits whose context is over before they begin.",
+    "C17": " RawRequest lists a Content-Length for bodies of known size > 0.",
+    "C18": " StatusTrailers also checks the gRPC-Web trailer block with response trailers that repeat keys.",
+    "C19": " LimitServer also against the grpc-go reference server.",
+    "C20": " RawPayload also as a raw stream item with computed / explicit length.",
+}
+for _pid, _txt in _ADDED7.items():
+    PROPS[_pid]["rule"] = PROPS[_pid]["rule"] + _txt
